@@ -95,7 +95,7 @@ Opened(o) ==
 OpenFails(o) ==
   /\ ~closed /\ o \in opening
   /\ opening' = opening \ {o}
-  /\ IF o.q \in K THEN Obs([e |-> "open_fail", s |-> S, t |-> Ms(now)]) ELSE UNCHANGED mon
+  /\ IF o.q \in K THEN Obs([e |-> "open_fail", s |-> S, t |-> Ms(now), rem |-> o.rem]) ELSE UNCHANGED mon
   /\ Stim([a |-> "fail", id |-> o.id, at |-> now])
   /\ UNCHANGED <<now, hs, last, tmr, subs, closed, nid>>
 
